@@ -93,6 +93,14 @@ def run(ctx):
                 sw.send(chunk)
                 outs.append(b''.join(inner.sent[before:]))
             elif not chunk:
+                # a zero-length read in mid-stream (legal on sockets and files): nothing is consumed, b'' comes back, the
+                # stream goes on afterwards
+                if rng.random() < 0.6:
+                    z = sw.recv(0) if kind == 'r' else fw.read(0)
+                    ctx.count('zero-length-reads')
+                    if z != b'':
+                        ctx.violation('a zero-length %s on the decrypting wrapper returned %r' % ('recv' if kind == 'r' else 'read', z),
+                                      {'secret': hx(secret)}, key={'kind': 'zero-length-read'})
                 outs.append(b'')
             else:
                 ask = len(chunk) + rng.choice([0, 1, 7, 4096])
@@ -127,6 +135,25 @@ def run(ctx):
         if bad:
             ctx.violation(bad, {'secret': hx(secret), 'ops': [(k, hx(c)) for k, c in seq][:40]},
                           key={'secret': hx(secret), 'n_ops': len(seq)})
+    # ---- the whole connection under several writer threads on an ENCRYPTED transport (scheduler scenarios of corr/c12.py:
+    # a preemption point between the cipher step and the raw send of every wrapper call): the wire must still be ONE CFB8
+    # stream, i.e. decrypt (independent decoder) to whole frames of the issued packets
+    import minecraft.networking.connection as C12c
+    from corr import c12 as c12s
+    for i in range(ctx.scale(30, 300)):
+        progs = c12s.gen_programs(rng)
+        if not any(k == 'f' for ops_ in progs for k, _ in ops_):
+            progs[0] = [('f', 901), ('f', 902)] + list(progs[0])
+        bias = rng.random()
+
+        def choose(en, n, bias=bias):
+            if 0 in en and rng.random() < bias * 0.5:
+                return 0
+            return rng.choice(en)
+        r = c12s.scenario(C12c, E, progs, choose, 'encrypted')
+        ctx.case(('encrypted-writers', c12s.prog_str(progs), tuple(r['ran'])))
+        ctx.count('encrypted-writers')
+        c12s.oracle(ctx, progs, r, 'encrypted', 'several threads write on the encrypted connection', stream_only=True)
     # ---- a thread switch right after a cipher call returns and before the wrapper has used its result
     # (forced: the cipher contexts are proxies that run ANOTHER wrapper operation at that point -- the other
     # direction of the same connection, or a second connection): directions and connections are independent
